@@ -256,6 +256,22 @@ def case_pairing_api(p):
         for r in range(1, p["max_ids"] + 1):
             for ids in itertools.combinations(ids_all, r):
                 issue(f"get_characteristics{list(ids)}", pr.get_characteristics(list(ids)), [("GET", read_target(ids), None, None, None)])
+        # what the caller may pass as ids: any iterable (the declared type), also single-pass ones
+        KINDS = {
+            "tuple": tuple, "generator": lambda x: (i for i in x), "iterator": iter, "dict-keys": lambda x: dict.fromkeys(x).keys(),
+            "map": lambda x: map(tuple, [list(i) for i in x]), "reversed": lambda x: reversed(list(reversed(x))), "frozenset": frozenset,
+        }
+        for kind, mk in KINDS.items():
+            for ids in ([(1, 9)], [(1, 9), (2, 9), (1, 10)]):
+                issue(f"get_characteristics:{kind}{ids}", pr.get_characteristics(mk(ids)), [("GET", read_target(ids), None, None, None)])
+            w = [(1, 10, 3), (2, 9, True)]
+            if kind != "frozenset":
+                issue(f"put_characteristics:{kind}", pr.put_characteristics(mk(w)), [("PUT", "/characteristics", {"characteristics": [{"aid": a, "iid": b, "value": x} for a, b, x in w]}, "application/hap+json", None)])
+            subs = [(1, 9), (1, 10)]
+            body = lambda ev: {"characteristics": [{"aid": a, "iid": b, "ev": ev} for a, b in subs]}  # noqa: E731
+            same = lambda ev: (lambda got: {"characteristics": sorted(got["characteristics"], key=lambda c: (c["aid"], c["iid"]))} if sorted(got.get("characteristics", []), key=lambda c: (c["aid"], c["iid"])) == body(ev)["characteristics"] else body(ev))  # noqa: E731
+            issue(f"subscribe:{kind}", pr.subscribe(mk(subs)), [("PUT", "/characteristics", (lambda got: got if sorted(got.get("characteristics", []), key=lambda c: (c["aid"], c["iid"])) == body(True)["characteristics"] else None), "application/hap+json", None)])
+            issue(f"unsubscribe:{kind}", pr.unsubscribe(mk(subs)), [("PUT", "/characteristics", (lambda got: got if sorted(got.get("characteristics", []), key=lambda c: (c["aid"], c["iid"])) == body(False)["characteristics"] else None), "application/hap+json", None)])
         issue("get_characteristics-dup", pr.get_characteristics([(1, 9), (1, 9), (1, 10)]), [("GET", read_target([(1, 9), (1, 10)]), None, None, None)])
         issue("get_characteristics-set", pr.get_characteristics({(2, 9), (1, 10)}), [("GET", read_target([(2, 9), (1, 10)]), None, None, None)])
         vals = [True, False, 0, 37, -5, 2.5, "text with \"quotes\" and ü", 1e3]
